@@ -360,6 +360,8 @@ def multi_stream(ctx: Ctx):
                     fs = [bytes(rng.randrange(256) for _ in range(rng.choice([4090, 6000, 20000])))]                                     # one packet of several KB
                 if sum(len(x) for x in fs) > 1000 and ck == "bytewise":
                     plan["cuts"] = cutfn("random")           # (thousands of one-byte segments would outlast the read timeout: not a reassembly matter)
+                if len(fs) > 3:
+                    plan["step"] = min(plan["step"], 0.01)   # (... and so would twenty segments 0.3 s apart: the whole stream arrives within the pause before the next exchange)
                 plan["frames"] = fs
                 sent += fs
                 got += list(await l.send(b"\xaa\x01", retries=1))
